@@ -27,8 +27,8 @@ ASSUMPTIONS = [
 BUDGET = {'quick': 900, 'thorough': 7200}
 CHUNK = {'quick': 64, 'thorough': 64}
 MANIFEST = {'engines': ['E1-enum']}
-SLAB = ['int', 'rev', 'str', 'mix', 'tup', 'fd']
-ALAB = ['ab', 'rev', 'ab', 'mix', 'rev', 'fd']
+SLAB = ['int', 'rev', 'str', 'mix', 'tup', 'fd', 'falsy']
+ALAB = ['ab', 'rev', 'ab', 'mix', 'rev', 'fd', 'falsy']
 
 
 def bounds(tier):
@@ -57,7 +57,7 @@ def spec_items(tier):
 
 def items(tier, seed):
     for i, it in enumerate(spec_items(tier)):
-        yield (it, (i + seed) % 6)
+        yield (it, (i + seed) % len(SLAB))
 
 
 def check(item, tier):
